@@ -45,6 +45,14 @@ func main() {
 }
 
 func load(repo string) *Verifier {
+	if data, err := os.ReadFile(filepath.Join(verifDir, "specs", "uses.txt")); err == nil {
+		for _, ln := range strings.Split(string(data), "\n") {
+			f := strings.Fields(ln)
+			if len(f) >= 2 && !strings.HasPrefix(f[0], "#") {
+				propUses[strings.TrimSuffix(f[0], ":")] = f[1:]
+			}
+		}
+	}
 	v, err := loadProgram(repo, []string{filepath.Join(verifDir, "specs", "lib.spec")})
 	if err != nil {
 		fmt.Fprintln(os.Stderr, "govc: load error:", err)
